@@ -178,16 +178,16 @@ PROPS["C04"] = {
 PROPS["C14"] = {
     "level": "model_checking",
     "harnesses": [
-        {"name": "c14_burst_2nodes", "fn": "c14_burst", "params": {"quick": {"secondaries": 1, "orders": 0}, "thorough": {"secondaries": 1, "orders": 1}}},
+        {"name": "c14_burst_2nodes", "fn": "c14_burst", "params": {"quick": {"secondaries": 1, "orders": 0}}},
         {"name": "c14_burst_3nodes", "fn": "c14_burst", "params": {"quick": {"secondaries": 2, "orders": 0, "budget": 120}}},
-        {"name": "c14_burst_2nodes_newer", "fn": "c14_burst", "params": {"quick": {"secondaries": 1, "orders": 0, "dbstrategy": 1}, "thorough": {"secondaries": 1, "orders": 1, "dbstrategy": 1}}},
+        {"name": "c14_burst_2nodes_newer", "fn": "c14_burst", "params": {"quick": {"secondaries": 1, "orders": 0, "dbstrategy": 1}}},
         {"name": "c14_burst_3nodes_newer", "fn": "c14_burst", "params": {"quick": {"secondaries": 2, "orders": 0, "budget": 120, "dbstrategy": 1}}},
         {"name": "c14_burst_2nodes_none", "fn": "c14_burst", "params": {"quick": {"secondaries": 1, "orders": 0, "dbstrategy": 2}}},
         {"name": "c14_burst_3nodes_after_handover", "fn": "c14_burst", "params": {"quick": {"secondaries": 2, "orders": 0, "budget": 120, "handover": 1}}, "covers": ["handover.done"]},
-        {"name": "c14_burst_2nodes_after_handover", "fn": "c14_burst", "params": {"quick": {"secondaries": 1, "orders": 0, "handover": 1}, "thorough": {"secondaries": 1, "orders": 1, "handover": 1}}, "covers": ["handover.done"]},
+        {"name": "c14_burst_2nodes_after_handover", "fn": "c14_burst", "params": {"quick": {"secondaries": 1, "orders": 0, "handover": 1}}, "covers": ["handover.done"]},
     ],
     "bounds": {"quick": "clusters of 2 and 3 nodes (database d with key k, common replicated history; strategy arbiter, and newer / none variants), an arbiter session at a solver-chosen node or nowhere, then ONE of 14 client commands at a solver-chosen node; the same after a primary hand-over from n1 to n2 with n1 staying as a secondary; messages crossing links counted until quiescence with a step budget of 80 / 120 (far above the bound 1 + 2 per secondary); one fair delivery order",
-               "thorough": "2 nodes under all FIFO-respecting delivery orders"},
+               "thorough": "same (exploring all delivery orders of the non-quiescing resolve exchange - recorded finding - does not terminate within an hour)"},
     "outside": "commands with symbolic arguments (the argument values do not change who sends what); nodes joining or leaving (the hand-over variant keeps the old primary as a secondary: n1 yields, n2 claims the role with the real election_win, supervisor arms election-win / primary mirrored)",
     "assumptions": ["environment shims", "the link pump mirrors handle_client / start_replication"],
 }
